@@ -21,7 +21,8 @@ ASSUMPTIONS = [
     'sensitivities of point-mass (pooled/heterogeneous) dimensions are only required to be consistent between the '
     'separate and the hierarchical return form and to equal the hierarchical derivative in the reduced form']
 REQUIRED = ['kind:gauss', 'kind:lognorm', 'kind:trunc', 'kind:pooled', 'kind:hetero', 'cov', 'comp', 'red',
-            'layout:matrix', 'layout:tensor', 'upstream', 'noncentered', 'oos', 'noncentered_zero_scale', 'reduced_part:all_fixed', 'trunc_value_on_boundary']
+            'layout:matrix', 'layout:tensor', 'upstream', 'noncentered', 'oos', 'noncentered_zero_scale', 'reduced_part:all_fixed', 'trunc_value_on_boundary',
+            'reduced_wrapper_resized:hetero']
 
 
 @st.composite
@@ -314,6 +315,36 @@ def _extra_clauses(case, m, pop, n_ids, theta, x, cov, special, want, kw):
                 out_m = m.compute_sensitivities(theta.copy(), x.copy(), reduce=True)
                 case.close(np.asarray(out_w[1], dtype=float), np.asarray(out_m[1], dtype=float), rtol=1e-12,
                            what='reduced sensitivities of the reduced wrapper, parameter matrix %s' % label)
+
+    # ---- a reduced wrapper that is built and has a parameter fixed (by name) while the model still has its default
+    # number of individuals, and is resized afterwards (what a hierarchical log-likelihood does with the population
+    # model it is given): the fixed parameter stays the one that was named
+    names_n = [str(v) for v in m.get_parameter_names()]
+    cand = [j for j, nm in enumerate(names_n) if not nm.startswith('ID ')]
+    if cand and len(names_n) >= 2 and np.isfinite(want) and s['layout'] == 'flat' and not popgen.has(pop, 'red') \
+            and not popgen.has(pop, 'cov'):
+        with case.clause('reduced_wrapper_resized'):
+            import chi
+            j = cand[-1] if len(theta) % 2 else cand[0]
+            wrap = chi.ReducedPopulationModel(ref.build_pop(pop, None, None))
+            if names_n[j] in [str(v) for v in wrap.get_parameter_names()]:
+                wrap.fix_parameters({names_n[j]: float(theta[j])})
+                wrap.set_n_ids(n_ids)
+                free = [k for k in range(len(theta)) if k != j]
+                case.equal([str(v) for v in wrap.get_parameter_names()], [names_n[k] for k in free],
+                           'free names of a wrapper resized to %d individuals after %r was fixed' % (n_ids, names_n[j]))
+                case.close(wrap.compute_log_likelihood(theta[free].copy(), x.copy(), **kw), want, rtol=1e-9,
+                           what='log-likelihood of a wrapper resized to %d individuals after %r was fixed' % (
+                               n_ids, names_n[j]))
+                out_w = wrap.compute_sensitivities(theta[free].copy(), x.copy(), reduce=True, **kw)
+                out_m = m.compute_sensitivities(theta.copy(), x.copy(), reduce=True, **kw)
+                g_m = np.asarray(out_m[1], dtype=float)
+                keep = [k for k in range(len(g_m)) if k != len(g_m) - len(theta) + j]
+                case.close(np.asarray(out_w[1], dtype=float), g_m[keep], rtol=1e-12,
+                           what='reduced sensitivities of a wrapper resized to %d individuals after %r was fixed' % (
+                               n_ids, names_n[j]))
+                case.labels.append('reduced_wrapper_resized' + (':hetero' if len(cand) < len(names_n) and n_ids >= 2
+                                                                else ''))
 
     # ---- the point mass has no width -------------------------------------------------------
     if any(special) and cov is None and np.isfinite(want):
